@@ -69,9 +69,17 @@ def do_user_call(X, node, st):
                 # a fresh empty list receiving a structured (non-heap) element becomes a Python-level list
                 st.env[f.value.id] = ConstList([v])
                 return [("n", st, NONE)]
+        if isinstance(obj, AbsDictV):
+            return [("n", st, X.absdict_method(st, obj, f.attr, node))]
         if isinstance(obj, ListV):
             X.need(obj, st, "list")
-            return list_method(X, st, obj, f.attr, node)
+            outs = list_method(X, st, obj, f.attr, node)
+            root = getattr(obj, "from_dict", None)
+            if root and f.attr in ("append", "insert", "pop", "extend", "remove", "sort", "clear"):
+                for k_, t_, v_ in outs:
+                    if k_ == "n":
+                        X.oblige("dict-list.refinement", t_, X.absdict_pred(t_, root, obj), "safe", text=f"a list held by dict {root} still satisfies the refinement after .{f.attr}()")
+            return outs
         if isinstance(obj, StrV):
             if f.attr == "split":
                 from .tokens import str_split
@@ -469,6 +477,31 @@ def list_method(X, st, L, name, node):
         st.pc.append(safe_forall([k], z3.Implies(z3.And(0 <= k, k < n - 1), new[k] == z3.If(k < i, arr[k], arr[k + 1])), patterns=[new[k]]))
         X.lset_arr(st, L, new, n - 1)
         return [("n", st, val)]
+    if name == "remove":
+        (v,) = args
+        x = term_of(v)
+        p_ = fresh("rm")
+        j = fresh("j")
+        X.safety("list.remove(x): x in list", st, z3.Exists([j], z3.And(0 <= j, j < n, arr[j] == x)))
+        st.pc.append(z3.And(0 <= p_, p_ < n, arr[p_] == x, safe_forall([j], z3.Implies(z3.And(0 <= j, j < p_), arr[j] != x), patterns=[arr[j]])))
+        new = fresh("rem", z3.ArraySort(I, I))
+        k = fresh("k")
+        st.pc.append(safe_forall([k], z3.Implies(z3.And(0 <= k, k < n - 1), new[k] == z3.If(k < p_, arr[k], arr[k + 1])), patterns=[new[k]]))
+        f_old = w_old = None
+        if L.elem == "ref:Message":
+            from .specfns import wsum_fn
+            f_old = wsum_fn(X, st, L)
+            w_old = X._specfn_weight(st, L)
+        X.lset_arr(st, L, new, n - 1)
+        if f_old is not None:
+            f_new = wsum_fn(X, st, L)
+            kk = fresh("k")
+            st.pc.append(z3.Implies(w_old(p_) == 0, z3.And(safe_forall([kk], z3.Implies(z3.And(0 <= kk, kk <= p_), f_new(kk) == f_old(kk)), patterns=[f_new(kk)]),
+                                                           safe_forall([kk], z3.Implies(z3.And(kk >= p_, kk <= n - 1), f_new(kk) == f_old(kk + 1)), patterns=[f_new(kk)]))))
+            X.notes.append("L: instance of lemma wsum_remove (removing a non-wait message keeps the wait sum) at list.remove")
+        if parse_type(L.elem)[0] != "ref":
+            X.notes.append("A: list.remove on a list of scalars compares by value")
+        return [("n", st, NONE)]
     if name == "sort":
         return list_sort(X, st, L, node)
     if name == "index":
